@@ -1392,3 +1392,27 @@ def c_match_skips_name(repo):
     fn.body[i0:j0] = [ast.If(ast.Name(name_p, ast.Load()), guarded, [])]
     ast.fix_missing_locations(t)
     return {'data': src(t)}
+
+
+@control(['C05', 'C15'], 'insert-index-clamped-by-filtered-view', ['R05.f'], 'clamp the insert index of a node with the length of its filtered contents')
+def c_insert_view_len(repo):
+    t = parse(repo, 'data')
+    fn = find_func(t, 'insert', cls='TexNode')
+    ip = fn.args.args[1].arg
+    new = ast.parse('%s = min(%s, len(self.contents))' % (ip, ip)).body[0]
+    k = 1 if fn.body and isinstance(fn.body[0], ast.Expr) and isinstance(fn.body[0].value, ast.Constant) else 0
+    fn.body.insert(k, new)
+    ast.fix_missing_locations(t)
+    return {'data': src(t)}
+
+
+@control(['C08', 'C05'], 'serialiser-adds-a-separator', ['R08.e'], 'print a space between the arguments and the contents of a command')
+def c_str_separator(repo):
+    t = parse(repo, 'data')
+    fn = find_func(t, '__str__', cls='TexCmd')
+    for n in ast.walk(fn):
+        if isinstance(n, ast.Constant) and isinstance(n.value, str) and n.value.count('%s') == 3:
+            i = n.value.rfind('%s')
+            n.value = n.value[:i] + ' ' + n.value[i:]
+            return {'data': src(t)}
+    raise NotApplicable('three-field format in TexCmd.__str__')
